@@ -8,9 +8,11 @@ package verifstate
 // in most histories instead of once in a while.
 
 import (
+	"bytes"
 	"fmt"
 	"time"
 
+	"github.com/hashicorp/consul-net-rpc/go-msgpack/codec"
 	"github.com/hashicorp/consul/agent/consul/state"
 	"github.com/hashicorp/consul/proto/private/pbpeering"
 	"google.golang.org/protobuf/proto"
@@ -48,10 +50,12 @@ func (w *World) DrawC06Op(t *rapid.T) *Op {
 		return w.DrawC06Tags(t)
 	case x < 44:
 		return w.DrawC06SessionCheck(t)
-	case x < 49:
-		return w.DrawC06Peering(t)
 	case x < 54:
+		return w.DrawC06Peering(t)
+	case x < 59:
 		return w.DrawC06NodeMeta(t)
+	case x < 62:
+		return w.DrawC06CA(t)
 	}
 	return w.DrawOp(t, C06Cfg)
 }
@@ -412,7 +416,56 @@ const (
 	C06PeeringDelete     = "c06/peering-delete"
 	C06TrustBundleWrite  = "c06/trust-bundle-write"
 	C06TrustBundleDelete = "c06/trust-bundle-delete"
+	C06CARootsSet        = "c06/ca-roots-set"
+	C06CAConfigSet       = "c06/ca-config-set"
 )
+
+// c06CAReq is the body of the two CA kinds (msgpack in Payload.CE): the arguments of CARootSetCAS / CACheckAndSetConfig.
+type c06CAReq struct {
+	CIdx   uint64
+	Roots  []*structs.CARoot
+	Config *structs.CAConfiguration
+}
+
+func newC06CA(kind string, idx uint64, req *c06CAReq, desc string) *Op {
+	var buf bytes.Buffer
+	if err := codec.NewEncoder(&buf, structs.MsgpackHandle).Encode(req); err != nil {
+		panic(fmt.Sprintf("verifstate: cannot encode %s: %v", kind, err))
+	}
+	return (&Op{Kind: kind, Idx: idx, Desc: desc, P: &Payload{CE: buf.Bytes()}}).Seal()
+}
+
+// NewC06CARootsSet replaces the CA roots (CAOpSetRoots): ids lists the root IDs, the first one is the active root.
+func NewC06CARootsSet(idx, cidx uint64, ids []string) *Op {
+	var rs []*structs.CARoot
+	for i, id := range ids {
+		rs = append(rs, &structs.CARoot{ID: id, Name: "root " + id, RootCert: "cert-" + id + "\n", SigningKeyID: "key-" + id, Active: i == 0})
+	}
+	return newC06CA(C06CARootsSet, idx, &c06CAReq{CIdx: cidx, Roots: rs}, fmt.Sprintf("ca-roots-set cas=%d roots=%v", cidx, ids))
+}
+
+// NewC06CAConfigSet rewrites the CA configuration (CAOpSetConfig with a ModifyIndex); the cluster ID never changes.
+func NewC06CAConfigSet(idx, cidx uint64, ttl string) *Op {
+	cfg := &structs.CAConfiguration{Provider: "consul", ClusterID: "11111111-2222-3333-4444-555555555555", Config: map[string]interface{}{"LeafCertTTL": ttl}}
+	return newC06CA(C06CAConfigSet, idx, &c06CAReq{CIdx: cidx, Config: cfg}, fmt.Sprintf("ca-config-set cas=%d ttl=%s", cidx, ttl))
+}
+
+// DrawC06CA draws a root rotation or a CA configuration update, with the current index most of the time.
+func (w *World) DrawC06CA(t *rapid.T) *Op {
+	if chance(t, "caroots", 65) {
+		cidx, _, _ := w.Store.CARoots(nil)
+		if chance(t, "castale", 15) && cidx > 0 {
+			cidx--
+		}
+		ids := pick(t, "rootset", [][]string{{"r1"}, {"r2", "r1"}, {"r2"}, {"r1", "r2"}, {"r3", "r2", "r1"}, {"r3"}})
+		return NewC06CARootsSet(w.NextIdx(t), cidx, ids)
+	}
+	cidx, _, _ := w.Store.CAConfig(nil)
+	if chance(t, "cfgstale", 15) && cidx > 0 {
+		cidx--
+	}
+	return NewC06CAConfigSet(w.NextIdx(t), cidx, pick(t, "leafttl", []string{"72h", "24h", "1h"}))
+}
 
 // C06PeerIDs are the fixed peering IDs of the two peer names.
 var C06PeerIDs = map[string]string{"peerA": "2a000000-0000-4000-8000-00000000000a", "peerB": "2a000000-0000-4000-8000-00000000000b"}
@@ -450,6 +503,17 @@ func C06Apply(s *state.Store, o *Op) Result {
 		var req pbpeering.PeeringTrustBundleWriteRequest
 		dec(&req)
 		return done(s.PeeringTrustBundleWrite(o.Idx, req.PeeringTrustBundle))
+	case C06CARootsSet, C06CAConfigSet:
+		var req c06CAReq
+		if err := codec.NewDecoder(bytes.NewReader(o.Fresh().CE), structs.MsgpackHandle).Decode(&req); err != nil {
+			panic(fmt.Sprintf("verifstate: cannot decode %s: %v", o.Kind, err))
+		}
+		if o.Kind == C06CARootsSet {
+			ok, err := s.CARootSetCAS(o.Idx, req.CIdx, req.Roots)
+			return Result{OK: ok, Err: err}
+		}
+		ok, err := s.CACheckAndSetConfig(o.Idx, req.CIdx, req.Config)
+		return Result{OK: ok, Err: err}
 	case C06TrustBundleDelete:
 		var req pbpeering.PeeringTrustBundleDeleteRequest
 		dec(&req)
@@ -485,11 +549,20 @@ func NewC06TrustBundleDelete(idx uint64, name string) *Op {
 // store calls: create (accepting side), metadata / state updates, mark for deletion, terminate by ID, final delete,
 // trust bundle write / delete. Requests are shaped as the peering service shapes them before raft apply.
 func (w *World) DrawC06Peering(t *rapid.T) *Op {
+	if chance(t, "exported", 22) {
+		return w.DrawC06Exported(t)
+	}
 	name := pick(t, "peername", []string{"peerA", "peerA", "peerB"})
 	_, cur, _ := w.Store.PeeringRead(nil, state.Query{Value: name})
 	clone := func() *pbpeering.Peering {
 		return &pbpeering.Peering{ID: cur.ID, Name: cur.Name, Meta: cur.Meta, State: cur.State, PeerID: cur.PeerID, PeerCAPems: cur.PeerCAPems,
 			PeerServerName: cur.PeerServerName, PeerServerAddresses: cur.PeerServerAddresses, Remote: cur.Remote, ManualServerAddresses: cur.ManualServerAddresses}
+	}
+	if cur != nil && cur.State != pbpeering.PeeringState_DELETING && chance(t, "trustbundle", 35) {
+		if _, tb, _ := w.Store.PeeringTrustBundleRead(nil, state.Query{Value: name}); tb != nil && chance(t, "tbdelete", 25) {
+			return NewC06TrustBundleDelete(w.NextIdx(t), name)
+		}
+		return NewC06TrustBundleWrite(w.NextIdx(t), name, pick(t, "tbpem", []string{"pem-1\n", "pem-2\n", "pem-3\n"}))
 	}
 	k := rapid.IntRange(0, 11).Draw(t, "peerop")
 	switch {
@@ -547,4 +620,38 @@ func (w *World) DrawC06NodeMeta(t *rapid.T) *Op {
 		req.NodeMeta = nil
 	}
 	return NewRegister(w.NextIdx(t), req)
+}
+
+
+// DrawC06Exported writes, rewrites or deletes the exported-services entry of the default partition (what the exported
+// service lists and the per-service peering / trust bundle lookups are computed from).
+func (w *World) DrawC06Exported(t *rapid.T) *Op {
+	ex := &structs.ExportedServicesConfigEntry{Name: "default"}
+	_, cur, _ := w.Store.ConfigEntry(nil, structs.ExportedServices, "default", nil)
+	if cur != nil && chance(t, "exdelete", 25) {
+		return NewConfig(ConfigDelete, w.NextIdx(t), structs.ConfigEntryDelete, ex)
+	}
+	n := rapid.IntRange(1, 3).Draw(t, "nexported")
+	for i := 0; i < n; i++ {
+		nm := pick(t, "exsvc", []string{"web", "web", "db", "api", "*"})
+		dup := false
+		for _, s := range ex.Services {
+			dup = dup || s.Name == nm
+		}
+		if dup {
+			continue
+		}
+		cons := []structs.ServiceConsumer{{Peer: pick(t, "expeer", []string{"peerA", "peerA", "peerB"})}}
+		if chance(t, "exboth", 25) {
+			cons = []structs.ServiceConsumer{{Peer: "peerA"}, {Peer: "peerB"}}
+		}
+		ex.Services = append(ex.Services, structs.ExportedService{Name: nm, Consumers: cons})
+	}
+	if err := ex.Normalize(); err != nil {
+		t.Skip("exported-services entry does not normalise: " + err.Error())
+	}
+	if err := ex.Validate(); err != nil {
+		return w.DrawOp(t, C06Cfg)
+	}
+	return NewConfig(ConfigSet, w.NextIdx(t), structs.ConfigEntryUpsert, ex)
 }
